@@ -1136,3 +1136,11 @@ M('c05-pack-selector-ignores-known-size', 'C05', "            if known_sizes and
 M('c16-has-objects-dedups-request', 'C16', "        existing_hashkeys = set()\n", "        existing_hashkeys = set()\n        hashkeys = list(dict.fromkeys(hashkeys))\n", 'C16.R2')
 M('c16-has-objects-filters-answers', 'C16', "        return [hashkey in existing_hashkeys for hashkey in hashkeys]", "        return [hashkey in existing_hashkeys for hashkey in hashkeys if hashkey]", 'C16.R2')
 M('c09-verifier-falls-through-on-missing', 'C09', "    except FileNotFoundError:\n        return None\n\n    return hasher.hexdigest()", "    except FileNotFoundError:\n        pass\n\n    return hasher.hexdigest()", 'C09.R1', U)
+M('c11-list-packs-includes-scratch', 'C11', "            if self._is_valid_pack_id(fname):\n                yield fname", "            if self._is_valid_pack_id(fname, allow_repack_pack=True):\n                yield fname", 'C11.R4')
+M('c07-inflate-read-capped-at-chunk', 'C07', "        if size == 0:\n            return b''\n\n        while len(self._internal_buffer) < size:", "        if size == 0:\n            return b''\n\n        size = min(size, self._CHUNKSIZE)\n        while len(self._internal_buffer) < size:", 'C07.R10', U)
+M('c07-inflate-loop-single-pass', 'C07', "            self._internal_buffer += decompressed_chunk\n", "            self._internal_buffer += decompressed_chunk\n            if decompressed_chunk:\n                break\n", 'C07.R10', U)
+M('c07-lazy-loose-read-capped', 'C07', "        return self._stream.read(size)\n\n    def __enter__(self) -> LazyLooseStream:", "        return self._stream.read(min(size, 65536) if size and size > 0 else size)\n\n    def __enter__(self) -> LazyLooseStream:", 'C07.R10', U)
+M('c07-loosen-writes-in-place', 'C07', "        with self.get_object_stream(hashkey) as stream:\n            # This always rewrites it as loose\n            written_hashkey = self.add_streamed_object(stream)", "        with self.get_object_stream(hashkey) as stream:\n            with open(loose_path, 'wb') as direct:\n                shutil.copyfileobj(stream, direct)\n            written_hashkey = hashkey", 'C07.R11')
+M('c08-op-session-aliases-container-session', 'C08', "        if self._operation_session is None:\n            self._operation_session = get_session(\n                self._get_pack_index_path(),\n                create=False,\n            )", "        if self._operation_session is None:\n            self._operation_session = self._container_session or get_session(\n                self._get_pack_index_path(),\n                create=False,\n            )", 'C08.R5')
+M('c08-op-session-dropped-unclosed', 'C08', "            binding = self._operation_session.bind\n            self._operation_session.close()\n", "            binding = self._operation_session.bind\n            if not isinstance(binding, Connection):\n                self._operation_session.close()\n", 'C08.R5')
+T('c09-twin-post-write-test-only-single-pass', 'C09', "                    if no_holes and obj_dict['hashkey'] in known_packed_hashkeys:\n                        # The object is there!", "                    if no_holes and not no_holes_read_twice and obj_dict['hashkey'] in known_packed_hashkeys:\n                        # The object is there!")
